@@ -1,1 +1,450 @@
-pub fn run(_seed: u64, _n: u64) {}
+//! web3id v1: `RequestV1::prove_with_rng` / `PresentationV1::verify` over account and identity
+//! credentials (identity_attributes_credentials.rs underneath), and request-anchor verification.
+use crate::*;
+use concordium_base::base::CredentialRegistrationID;
+use concordium_base::hashes;
+use concordium_base::id::constants::IpPairing;
+use concordium_base::id::{identity_provider, test as idtest};
+use concordium_base::web3id::did::Network;
+use concordium_base::web3id::v1::anchor::*;
+use concordium_base::web3id::v1::*;
+
+type W = Web3IdAttribute;
+type Pres = PresentationV1<IpPairing, ArCurve, W>;
+type Mat = CredentialVerificationMaterial<IpPairing, ArCurve>;
+type StmtV1 = AtomicStatementV1<ArCurve, AttributeTag, W>;
+
+/// v1 statements: the four of `St` with Reveal replaced by "attribute equals value".
+#[derive(Clone, Debug)]
+enum S1 { Base(St), Value(u8, A) }
+impl S1 {
+    fn tag(&self) -> u8 { match self { S1::Base(s) => s.tag(), S1::Value(t, _) => *t } }
+}
+fn mk1(s: &S1) -> StmtV1 {
+    match s {
+        S1::Value(t, a) => AtomicStatementV1::AttributeValue(AttributeValueStatement { attribute_tag: AttributeTag(*t), attribute_value: W::mk(a).unwrap(), _phantom: PhantomData }),
+        S1::Base(b) => match mk_stmt::<W, _>(b, AttributeTag(b.tag())) {
+            AtomicStatement::AttributeInRange { statement } => AtomicStatementV1::AttributeInRange(statement),
+            AtomicStatement::AttributeInSet { statement } => AtomicStatementV1::AttributeInSet(statement),
+            AtomicStatement::AttributeNotInSet { statement } => AtomicStatementV1::AttributeNotInSet(statement),
+            AtomicStatement::RevealAttribute { .. } => unreachable!(),
+        },
+    }
+}
+fn s1_json(s: &S1) -> J {
+    match s {
+        S1::Base(b) => stmt_json::<W>(b),
+        S1::Value(t, a) => json!({"s":"value","tag":t,"v":{"a":a_json(a),"fe":fe_hex(&W::mk(a).unwrap())}}),
+    }
+}
+fn requested(s: &S1) -> RequestedStatement<AttributeTag> {
+    match mk1(s) {
+        AtomicStatementV1::AttributeValue(st) => RequestedStatement::RevealAttribute(RevealAttributeStatement { attribute_tag: st.attribute_tag }),
+        AtomicStatementV1::AttributeInRange(st) => RequestedStatement::AttributeInRange(st),
+        AtomicStatementV1::AttributeInSet(st) => RequestedStatement::AttributeInSet(st),
+        AtomicStatementV1::AttributeNotInSet(st) => RequestedStatement::AttributeNotInSet(st),
+    }
+}
+
+struct Idp {
+    ip_info: IpInfo<IpPairing>,
+    ip_secret: concordium_base::ps_sig::SecretKey<IpPairing>,
+    ars: ArInfos<ArCurve>,
+}
+
+enum Cred {
+    Account { al: Vec<(u8, A)>, ss: Vec<S1>, cred_id: CredentialRegistrationID, network: Network, inputs: OwnedCredentialProofPrivateInputs<IpPairing, ArCurve, W>, material: Mat, issuer: IpIdentity },
+    Identity { al: Vec<(u8, A)>, ss: Vec<S1>, network: Network, inputs: OwnedCredentialProofPrivateInputs<IpPairing, ArCurve, W>, material: Mat, issuer: IpIdentity },
+}
+impl Cred {
+    fn al(&self) -> &Vec<(u8, A)> { match self { Cred::Account { al, .. } | Cred::Identity { al, .. } => al } }
+    fn ss(&self) -> &Vec<S1> { match self { Cred::Account { ss, .. } | Cred::Identity { ss, .. } => ss } }
+    fn material(&self) -> &Mat { match self { Cred::Account { material, .. } | Cred::Identity { material, .. } => material } }
+    fn inputs(&self) -> &OwnedCredentialProofPrivateInputs<IpPairing, ArCurve, W> { match self { Cred::Account { inputs, .. } | Cred::Identity { inputs, .. } => inputs } }
+    fn kind(&self) -> &'static str { match self { Cred::Account { .. } => "account", Cred::Identity { .. } => "identity" } }
+    fn claims(&self) -> SubjectClaims<ArCurve, W> {
+        match self {
+            Cred::Account { ss, cred_id, network, issuer, .. } => SubjectClaims::Account(AccountBasedSubjectClaims { network: *network, issuer: *issuer, cred_id: *cred_id, statements: ss.iter().map(mk1).collect() }),
+            Cred::Identity { ss, network, issuer, .. } => SubjectClaims::Identity(IdentityBasedSubjectClaims { network: *network, issuer: *issuer, statements: ss.iter().map(mk1).collect() }),
+        }
+    }
+}
+
+fn gen_s1(r: &mut Rng, al: &[(u8, A)], all_true: bool, identity: bool) -> Vec<S1> {
+    let mut base = gen_stmts_pub(r, al, true);
+    if all_true { base.retain(|s| impl_truth_supported(al, s)); }
+    let mut out: Vec<S1> = Vec::new();
+    for s in base {
+        match s {
+            St::Reveal(t) => {
+                let v = al.iter().find(|(t2, _)| *t2 == t).map(|(_, a)| a.clone());
+                let v = match v { Some(v) => v, None => continue };
+                let val = if !all_true && r.chance(1, 3) { succ_attr_pub(&v, 1).unwrap_or(A::N(r.next())) }
+                          else if !identity && r.chance(1, 6) { match &v { A::N(n) => A::T((*n % (1u64 << 53)).max(1u64 << 36)), x => x.clone() } }
+                          else { v };
+                out.push(S1::Value(t, val));
+            }
+            other => out.push(S1::Base(other)),
+        }
+    }
+    if out.is_empty() && all_true { out.push(S1::Value(al[0].0, al[0].1.clone())); }
+    out
+}
+
+fn gen_cred(r: &mut Rng, csprng: &mut StdRng, global: &GlobalContext<ArCurve>, idp: &Idp, identity: bool, all_true: bool, network: Network) -> Cred {
+    let al = gen_alist_pub(r, true);
+    let ss = gen_s1(r, &al, all_true, identity);
+    if identity {
+        let id_use = idtest::test_create_id_use_data(csprng);
+        let (_ctx, pio, _) = idtest::test_create_pio_v1(&id_use, &idp.ip_info, &idp.ars.anonymity_revokers, global, 3, csprng);
+        let alist: AttributeList<Scalar, W> = AttributeList {
+            valid_to: YearMonth::new(2030, 5).unwrap(), created_at: YearMonth::new(2020, 5).unwrap(), max_accounts: 237,
+            alist: al.iter().map(|(t, a)| (AttributeTag(*t), W::mk(a).unwrap())).collect(), _phantom: Default::default() };
+        let sig = identity_provider::sign_identity_object_v1_with_rng(&pio, &idp.ip_info, &alist, &idp.ip_secret, csprng).expect("sign");
+        let id_object = IdentityObjectV1 { pre_identity_object: pio, alist, signature: sig };
+        let inputs = OwnedCredentialProofPrivateInputs::Identity(Box::new(OwnedIdentityCredentialProofPrivateInputs {
+            ip_info: idp.ip_info.clone(), ars_infos: idp.ars.clone(), id_object, id_object_use_data: id_use }));
+        let material = CredentialVerificationMaterial::Identity(IdentityCredentialVerificationMaterial { ip_info: idp.ip_info.clone(), ars_infos: idp.ars.clone() });
+        Cred::Identity { al, ss, network, inputs, material, issuer: idp.ip_info.ip_identity }
+    } else {
+        let w: World<W> = build_world(global, &al, csprng);
+        let cred_id = CredentialRegistrationID::from_exponent(global, ArCurve::generate_scalar(csprng));
+        let issuer = IpIdentity(r.below(20) as u32);
+        let inputs = OwnedCredentialProofPrivateInputs::Account(OwnedAccountCredentialProofPrivateInputs { issuer, attribute_values: w.values, attribute_randomness: w.rand });
+        let material = CredentialVerificationMaterial::Account(AccountCredentialVerificationMaterial { issuer, attribute_commitments: w.coms });
+        Cred::Account { al, ss, cred_id, network, inputs, material, issuer }
+    }
+}
+
+fn vb(p: &Pres, global: &GlobalContext<ArCurve>, mats: &[Mat]) -> J {
+    match guarded(|| p.verify(global, mats.iter()).is_ok()) { Ok(x) => json!(x), Err(_) => json!("PANIC") }
+}
+
+fn block_hash(r: &mut Rng) -> hashes::BlockHash { let b = r.bytes(32); let mut a = [0u8; 32]; a.copy_from_slice(&b); hashes::BlockHash::new(a) }
+
+fn alter_s1(r: &mut Rng, s: &S1, v: &A) -> Option<S1> {
+    match s {
+        S1::Value(t, a) => Some(S1::Value(*t, succ_attr_pub(a, 1).unwrap_or(A::N(r.next())))),
+        S1::Base(St::Range(t, lo, hi)) => succ_attr_pub(hi, 1).map(|h2| S1::Base(St::Range(*t, lo.clone(), h2))).or_else(|| pred_attr_pub(lo, 1).map(|l2| S1::Base(St::Range(*t, l2, hi.clone())))),
+        S1::Base(St::In(t, set)) | S1::Base(St::NotIn(t, set)) => {
+            let mut extra = A::N(r.next());
+            while set.contains(&extra) || &extra == v { extra = A::N(r.next()); }
+            let mut s2 = set.clone(); s2.push(extra);
+            Some(S1::Base(if matches!(s, S1::Base(St::In(..))) { St::In(*t, s2) } else { St::NotIn(*t, s2) }))
+        }
+        _ => None,
+    }
+}
+
+pub fn run(seed: u64, n: u64) {
+    let mut r = Rng::new(seed ^ 0x7631);
+    let mut csprng = StdRng::seed_from_u64(seed ^ 0x7631);
+    let global = GlobalContext::<ArCurve>::generate(String::from("verif-c18"));
+    let global2 = GlobalContext::<ArCurve>::generate(String::from("verif-c18-other"));
+    let mk_idp = |csprng: &mut StdRng, id: u32| {
+        let IpData { public_ip_info: mut ip_info, ip_secret_key, .. } = idtest::test_create_ip_info(csprng, 3, 12);
+        ip_info.ip_identity = IpIdentity(id);
+        let (ars, _) = idtest::test_create_ars(&global.on_chain_commitment_key.g, 3, csprng);
+        Idp { ip_info, ip_secret: ip_secret_key, ars: ArInfos { anonymity_revokers: ars } }
+    };
+    let idp = mk_idp(&mut csprng, 3);
+    let idp_other = mk_idp(&mut csprng, 3);
+    let now = chrono::DateTime::parse_from_rfc3339("2024-02-29T12:00:00Z").unwrap().to_utc();
+    let mut ties = 0;
+    for i in 0..n {
+        let ncred = if i % 4 == 3 { 2 } else { 1 };
+        let all_true = i % 3 != 2;
+        let network = if r.chance(1, 2) { Network::Testnet } else { Network::Mainnet };
+        let mut creds: Vec<Cred> = (0..ncred).map(|j| gen_cred(&mut r, &mut csprng, &global, &idp, (i + j) % 2 == 1, all_true, network)).collect();
+        let want_tie = ties < 3 && matches!(creds[0], Cred::Account { .. });
+        if want_tie { if let Cred::Account { ss, al, .. } = &mut creds[0] { ss.insert(0, S1::Value(al[0].0, al[0].1.clone())); ties += 1; } }
+        let bh = block_hash(&mut r);
+        let nonce = { let b = r.bytes(32); let mut a = [0u8; 32]; a.copy_from_slice(&b); Nonce(a) };
+        let unfilled = UnfilledContextInformation {
+            given: vec![LabeledContextProperty::Nonce(nonce), LabeledContextProperty::ConnectionId(format!("conn-{}", r.below(1000))), LabeledContextProperty::ContextString(gen_string(&mut r, 5))],
+            requested: vec![ContextLabel::BlockHash],
+        };
+        let context = ContextInformation {
+            given: unfilled.given.iter().map(|p| p.to_context_property()).collect(),
+            requested: vec![LabeledContextProperty::BlockHash(bh).to_context_property()],
+        };
+        let request = RequestV1 { context: context.clone(), subject_claims: creds.iter().map(|c| c.claims()).collect() };
+        let mats: Vec<Mat> = creds.iter().map(|c| c.material().clone()).collect();
+        let cj: Vec<J> = creds.iter().map(|c| json!({"kind": c.kind(), "ty": "web3",
+            "al": c.al().iter().map(|(t, a)| json!([t, a_json(a), fe_hex(&W::mk(a).unwrap())])).collect::<Vec<_>>(),
+            "ss": c.ss().iter().map(s1_json).collect::<Vec<_>>()})).collect();
+        let mut out = json!({"k":"pres","flow":"v1","creds":cj,"i":i});
+        let pres = guarded(|| request.clone().prove_with_rng(&global, creds.iter().map(|c| c.inputs().borrow()).collect::<Vec<_>>().into_iter(), &mut StdRng::seed_from_u64(seed + i), now));
+        let pres: Pres = match pres {
+            Err(_) => { out["prove"] = json!("PANIC"); println!("{}", out); continue; }
+            Ok(Err(e)) => { out["prove"] = json!("Err"); out["err"] = json!(format!("{}", e)); println!("{}", out); continue; }
+            Ok(Ok(p)) => p,
+        };
+        out["prove"] = json!("Some");
+        let res = guarded(|| pres.verify(&global, mats.iter()));
+        let verified = match &res {
+            Err(_) => { out["verify"] = json!("PANIC"); false }
+            Ok(Err(_)) => { out["verify"] = json!(false); false }
+            Ok(Ok(req)) => { out["verify"] = json!(true); out["same_request"] = json!(*req == request); true }
+        };
+        if verified {
+            // values revealed by an identity credential are exactly the values of the identity object
+            let mut revealed_ok = true;
+            for (c, vc) in creds.iter().zip(pres.verifiable_credentials.iter()) {
+                if let (Cred::Identity { al, .. }, CredentialV1::Identity(ic)) = (c, vc) {
+                    for (tag, attr) in ic.proof.proof_value.identity_attributes.iter() {
+                        if let IdentityAttribute::Revealed(a) = attr { revealed_ok &= al.iter().any(|(t, x)| *t == tag.0 && *x == a.back()); }
+                    }
+                    revealed_ok &= ic.validity.created_at == YearMonth::new(2020, 5).unwrap() && ic.validity.valid_to == YearMonth::new(2030, 5).unwrap();
+                }
+            }
+            out["revealed_ok"] = json!(revealed_ok);
+            let rt = guarded(|| serde_json::to_value(&pres).ok().and_then(|v| serde_json::from_value::<Pres>(v).ok()));
+            out["json_roundtrip"] = match rt { Ok(Some(p2)) => vb(&p2, &global, &mats), Ok(None) => json!("PARSE-ERR"), Err(_) => json!("SERIALIZE-PANIC") };
+            let nstm: usize = creds.iter().map(|c| c.ss().len()).sum();
+            let has_identity = creds.iter().any(|c| matches!(c, Cred::Identity { .. }));
+            let mut pert: Vec<J> = Vec::new();
+            // --- context (bound whenever at least one Fiat-Shamir challenge is derived)
+            if nstm > 0 || has_identity {
+                let mut p = pres.clone(); p.presentation_context.given[0].context.push('0');
+                pert.push(json!(["context_given_value", vb(&p, &global, &mats)]));
+                let mut p = pres.clone(); p.presentation_context.given[1].label = "ResourceId".into();
+                pert.push(json!(["context_given_label", vb(&p, &global, &mats)]));
+                let mut p = pres.clone(); p.presentation_context.given.pop();
+                pert.push(json!(["context_given_dropped", vb(&p, &global, &mats)]));
+                let mut p = pres.clone(); p.presentation_context.requested[0].context = block_hash(&mut r).to_string();
+                pert.push(json!(["context_requested_value", vb(&p, &global, &mats)]));
+                let mut p = pres.clone(); let g = p.presentation_context.given.clone(); p.presentation_context.given = p.presentation_context.requested.clone(); p.presentation_context.requested = g;
+                pert.push(json!(["context_given_requested_swapped", vb(&p, &global, &mats)]));
+                let mut p = pres.clone(); let x = p.presentation_context.given.pop().unwrap(); p.presentation_context.requested.insert(0, x);
+                pert.push(json!(["context_property_moved", vb(&p, &global, &mats)]));
+                pert.push(json!(["global_genesis_string", vb(&pres, &global2, &mats)]));
+            }
+            pert.push(json!(["material_dropped", vb(&pres, &global, &mats[..mats.len() - 1])]));
+            for (j, c) in creds.iter().enumerate() {
+                let bound = !c.ss().is_empty() || matches!(c, Cred::Identity { .. });
+                match (&pres.verifiable_credentials[j], c) {
+                    (CredentialV1::Account(ac), Cred::Account { al, ss, .. }) => {
+                        let put = |a: AccountBasedCredentialV1<ArCurve, W>| { let mut p = pres.clone(); p.verifiable_credentials[j] = CredentialV1::Account(a); p };
+                        // issuer: in the credential only (material mismatch) and in both (transcript)
+                        let mut a = ac.clone(); a.issuer = IpIdentity(ac.issuer.0 + 1);
+                        pert.push(json!([format!("account_issuer#{}", j), vb(&put(a.clone()), &global, &mats)]));
+                        if bound {
+                            let mut m2 = mats.clone();
+                            if let CredentialVerificationMaterial::Account(am) = &mut m2[j] { am.issuer = a.issuer; }
+                            pert.push(json!([format!("account_issuer_and_material#{}", j), vb(&put(a), &global, &m2)]));
+                            let mut a = ac.clone(); a.proof.created_at = ac.proof.created_at + chrono::Duration::milliseconds(1);
+                            pert.push(json!([format!("account_created#{}", j), vb(&put(a), &global, &mats)]));
+                            let mut a = ac.clone(); a.subject.network = if ac.subject.network == Network::Testnet { Network::Mainnet } else { Network::Testnet };
+                            pert.push(json!([format!("account_network#{}", j), vb(&put(a), &global, &mats)]));
+                            let mut a = ac.clone(); a.subject.cred_id = CredentialRegistrationID::from_exponent(&global, ArCurve::generate_scalar(&mut csprng));
+                            pert.push(json!([format!("account_cred_id#{}", j), vb(&put(a), &global, &mats)]));
+                        }
+                        for (k, s) in ss.iter().enumerate() {
+                            let v = al.iter().find(|(t, _)| *t == s.tag()).map(|(_, a)| a.clone()).unwrap();
+                            if let Some(s2) = alter_s1(&mut r, s, &v) {
+                                if format!("{}", s1_json(&s2)) == format!("{}", s1_json(s)) { continue; }
+                                let mut a = ac.clone(); a.subject.statements[k] = mk1(&s2);
+                                pert.push(json!([format!("account_statement_altered#{}", j), vb(&put(a), &global, &mats)]));
+                            }
+                            // material: the commitment of the statement's attribute
+                            if let CredentialVerificationMaterial::Account(am) = &mats[j] {
+                                let t = AttributeTag(s.tag());
+                                let x = W::mk(&v).unwrap();
+                                let (cnew, _) = global.on_chain_commitment_key.commit(&Value::<ArCurve>::new(x.to_field_element()), &mut csprng);
+                                let mut am2 = am.clone(); am2.attribute_commitments.insert(t, cnew);
+                                let mut m2 = mats.clone(); m2[j] = CredentialVerificationMaterial::Account(am2);
+                                pert.push(json!([format!("account_commitment_rerandomised#{}", j), vb(&pres, &global, &m2)]));
+                                let mut am3 = am.clone(); am3.attribute_commitments.remove(&t);
+                                let mut m3 = mats.clone(); m3[j] = CredentialVerificationMaterial::Account(am3);
+                                pert.push(json!([format!("account_commitment_missing#{}", j), vb(&pres, &global, &m3)]));
+                            }
+                        }
+                        if ss.len() >= 2 && format!("{}", s1_json(&ss[0])) != format!("{}", s1_json(&ss[1])) {
+                            let mut a = ac.clone(); a.subject.statements.swap(0, 1); a.proof.proof_value.statement_proofs.swap(0, 1);
+                            pert.push(json!([format!("account_statements_and_proofs_swapped#{}", j), vb(&put(a), &global, &mats)]));
+                        }
+                        if ss.len() >= 2 {
+                            // (with a single statement nothing is left to verify: an empty claim list asserts nothing)
+                            let mut a = ac.clone(); a.subject.statements.pop(); a.proof.proof_value.statement_proofs.pop();
+                            pert.push(json!([format!("account_statement_and_proof_dropped#{}", j), vb(&put(a), &global, &mats)]));
+                        }
+                        if !ss.is_empty() {
+                            let mut a = ac.clone(); a.proof.proof_value.statement_proofs.pop();
+                            pert.push(json!([format!("account_proof_dropped#{}", j), vb(&put(a), &global, &mats)]));
+                        }
+                        let mut m2 = mats.clone(); m2[j] = idp.material_identity();
+                        pert.push(json!([format!("account_material_wrong_type#{}", j), vb(&pres, &global, &m2)]));
+                    }
+                    (CredentialV1::Identity(ic), Cred::Identity { al, ss, .. }) => {
+                        let put = |a: IdentityBasedCredentialV1<IpPairing, ArCurve, W>| { let mut p = pres.clone(); p.verifiable_credentials[j] = CredentialV1::Identity(a); p };
+                        let mut a = ic.clone(); a.issuer = IpIdentity(ic.issuer.0 + 1);
+                        pert.push(json!([format!("identity_issuer#{}", j), vb(&put(a), &global, &mats)]));
+                        let mut a = ic.clone(); a.validity.valid_to = YearMonth::new(2031, 5).unwrap();
+                        pert.push(json!([format!("identity_valid_to#{}", j), vb(&put(a), &global, &mats)]));
+                        let mut a = ic.clone(); a.validity.created_at = YearMonth::new(2019, 5).unwrap();
+                        pert.push(json!([format!("identity_created_at#{}", j), vb(&put(a), &global, &mats)]));
+                        let mut a = ic.clone(); a.proof.created_at = ic.proof.created_at + chrono::Duration::milliseconds(1);
+                        pert.push(json!([format!("identity_proof_created#{}", j), vb(&put(a), &global, &mats)]));
+                        let mut a = ic.clone(); a.subject.network = if ic.subject.network == Network::Testnet { Network::Mainnet } else { Network::Testnet };
+                        pert.push(json!([format!("identity_network#{}", j), vb(&put(a), &global, &mats)]));
+                        let mut a = ic.clone(); let l = a.subject.cred_id.0.len(); a.subject.cred_id.0[l - 1] ^= 1;
+                        pert.push(json!([format!("identity_cred_id_bitflip#{}", j), vb(&put(a), &global, &mats)]));
+                        // the ephemeral id of another proof of the same identity
+                        // identity attributes: a revealed value / a commitment / handling changed
+                        let mut done_rev = false; let mut done_cmm = false;
+                        for (tag, attr) in ic.proof.proof_value.identity_attributes.iter() {
+                            match attr {
+                                IdentityAttribute::Revealed(x) if !done_rev => {
+                                    let mut a = ic.clone();
+                                    let other = succ_attr_pub(&x.back(), 1).unwrap_or(A::N(r.next()));
+                                    a.proof.proof_value.identity_attributes.insert(*tag, IdentityAttribute::Revealed(W::mk(&other).unwrap()));
+                                    pert.push(json!([format!("identity_revealed_value#{}", j), vb(&put(a), &global, &mats)]));
+                                    let mut a = ic.clone();
+                                    a.proof.proof_value.identity_attributes.insert(*tag, IdentityAttribute::Known);
+                                    pert.push(json!([format!("identity_revealed_to_known#{}", j), vb(&put(a), &global, &mats)]));
+                                    done_rev = true;
+                                }
+                                IdentityAttribute::Committed(cm) if !done_cmm => {
+                                    let mut a = ic.clone();
+                                    a.proof.proof_value.identity_attributes.insert(*tag, IdentityAttribute::Committed(Commitment(cm.0.plus_point(&global.on_chain_commitment_key.h))));
+                                    pert.push(json!([format!("identity_commitment_altered#{}", j), vb(&put(a), &global, &mats)]));
+                                    done_cmm = true;
+                                }
+                                _ => {}
+                            }
+                        }
+                        for (k, s) in ss.iter().enumerate() {
+                            let v = al.iter().find(|(t, _)| *t == s.tag()).map(|(_, a)| a.clone()).unwrap();
+                            if let Some(s2) = alter_s1(&mut r, s, &v) {
+                                if format!("{}", s1_json(&s2)) == format!("{}", s1_json(s)) { continue; }
+                                let mut a = ic.clone(); a.subject.statements[k] = mk1(&s2);
+                                pert.push(json!([format!("identity_statement_altered#{}", j), vb(&put(a), &global, &mats)]));
+                            }
+                        }
+                        if !ss.is_empty() {
+                            let mut a = ic.clone(); a.subject.statements.pop(); a.proof.proof_value.statement_proofs.pop();
+                            pert.push(json!([format!("identity_statement_and_proof_dropped#{}", j), vb(&put(a), &global, &mats)]));
+                        }
+                        // verification material: another identity provider key / other anonymity revokers
+                        let mut m2 = mats.clone(); m2[j] = idp_other.material_identity();
+                        pert.push(json!([format!("identity_material_other_idp#{}", j), vb(&pres, &global, &m2)]));
+                        let mut m3 = mats.clone();
+                        m3[j] = CredentialVerificationMaterial::Identity(IdentityCredentialVerificationMaterial { ip_info: idp.ip_info.clone(), ars_infos: idp_other.ars.clone() });
+                        pert.push(json!([format!("identity_material_other_ars#{}", j), vb(&pres, &global, &m3)]));
+                        let mut m4 = mats.clone(); m4[j] = CredentialVerificationMaterial::Account(AccountCredentialVerificationMaterial { issuer: ic.issuer, attribute_commitments: BTreeMap::new() });
+                        pert.push(json!([format!("identity_material_wrong_type#{}", j), vb(&pres, &global, &m4)]));
+                    }
+                    _ => {}
+                }
+            }
+            out["pert"] = json!(pert);
+            // --- transcript tie (account credential, first statement an attribute-value statement)
+            if want_tie {
+                if let (Cred::Account { al, material: CredentialVerificationMaterial::Account(am), .. }, CredentialV1::Account(ac)) = (&creds[0], &pres.verifiable_credentials[0]) {
+                    if let Some(AtomicProofV1::AttributeValue(avp)) = ac.proof.proof_value.statement_proofs.first() {
+                        let com = am.attribute_commitments.get(&AttributeTag(al[0].0)).unwrap();
+                        let x = W::mk(&al[0].1).unwrap().to_field_element();
+                        let mut mx = x; mx.negate();
+                        let public_pt = com.0.plus_point(&global.on_chain_commitment_key.g.mul_by_scalar(&mx));
+                        let d = Dlog::<ArCurve> { public: public_pt, coeff: global.on_chain_commitment_key.h };
+                        let ch = d.get_challenge(&avp.proof.challenge);
+                        if let Some(point) = d.extract_commit_message(&ch, &avp.proof.response) {
+                            out["tie"] = json!({"flow":"v1","given":hex(&to_bytes(&context.given)),"requested":hex(&to_bytes(&context.requested)),
+                                "global":hex(&to_bytes(&global)),"proof_version":hex(&to_bytes(&ac.proof.proof_version)),"created":hex(&to_bytes(&ac.proof.created_at)),
+                                "issuer":hex(&to_bytes(&ac.issuer)),"statements":hex(&to_bytes(&ac.subject.statements)),"network":hex(&to_bytes(&ac.subject.network)),
+                                "cred_id":hex(&to_bytes(&ac.subject.cred_id)),
+                                "x":hex(&to_bytes(&x)),"keys":hex(&to_bytes(&global.on_chain_commitment_key)),"C":hex(&to_bytes(com)),
+                                "public":hex(&to_bytes(&public_pt)),"coeff":hex(&to_bytes(&global.on_chain_commitment_key.h)),"point":hex(&to_bytes(&point)),
+                                "fs":hex(avp.proof.challenge.as_ref())});
+                        }
+                    }
+                }
+            }
+        }
+        println!("{}", out);
+
+        // ------------------------------------------------------------ request anchor verification
+        if ncred == 1 {
+            let c = &creds[0];
+            let ip = match c { Cred::Account { issuer, .. } | Cred::Identity { issuer, .. } => *issuer };
+            let claims = RequestedIdentitySubjectClaims {
+                statements: c.ss().iter().map(requested).collect(),
+                issuers: vec![IdentityProviderDid::new(ip.0, network), IdentityProviderDid::new(ip.0 + 100, network)],
+                source: vec![IdentityCredentialType::IdentityCredential, IdentityCredentialType::AccountCredential],
+            };
+            let data = VerificationRequestDataBuilder::new(unfilled.clone()).subject_claim(claims.clone()).build();
+            let anchor = data.to_anchor(None);
+            let vreq = VerificationRequest { context: unfilled.clone(), subject_claims: data.subject_claims.clone(),
+                anchor_transaction_hash: hashes::TransactionHash::new([9u8; 32]) };
+            let vra = VerificationRequestAnchorAndBlockHash { verification_request_anchor: anchor.clone(), block_hash: bh };
+            let validity = CredentialValidityType::ValidityPeriod(CredentialValidity { valid_to: YearMonth::new(2030, 5).unwrap(), created_at: YearMonth::new(2020, 5).unwrap() });
+            let mat = vec![VerificationMaterialWithValidity { verification_material: c.material().clone(), validity: validity.clone() }];
+            let vctx = VerificationContext { network, validity_time: now };
+            let run = |name: &str, expect_ok: bool, vctx: &VerificationContext, vreq: &VerificationRequest, p: &Pres, vra: &VerificationRequestAnchorAndBlockHash, mat: &Vec<VerificationMaterialWithValidity>| {
+                let res = guarded(|| verify_presentation_with_request_anchor(&global, vctx, vreq, p, vra, mat));
+                let rs = match res { Ok(PresentationVerificationResult::Verified) => "Verified".to_string(), Ok(PresentationVerificationResult::Failed(f)) => format!("Failed({:?})", f), Err(_) => "PANIC".into() };
+                println!("{}", json!({"k":"anchor","name":name,"i":i,"kind":c.kind(),"expect_ok":expect_ok,"result":rs}));
+            };
+            run("honest", verified, &vctx, &vreq, &pres, &vra, &mat);
+            if verified {
+                let on = if network == Network::Testnet { Network::Mainnet } else { Network::Testnet };
+                run("wrong_network", false, &VerificationContext { network: on, validity_time: now }, &vreq, &pres, &vra, &mat);
+                let t0 = chrono::DateTime::parse_from_rfc3339("2020-04-30T23:59:59Z").unwrap().to_utc();
+                let t1 = chrono::DateTime::parse_from_rfc3339("2020-05-01T00:00:00Z").unwrap().to_utc();
+                let t2 = chrono::DateTime::parse_from_rfc3339("2030-05-31T23:59:59Z").unwrap().to_utc();
+                let t3 = chrono::DateTime::parse_from_rfc3339("2030-06-01T00:00:00Z").unwrap().to_utc();
+                run("not_yet_valid", false, &VerificationContext { network, validity_time: t0 }, &vreq, &pres, &vra, &mat);
+                run("first_valid_instant", true, &VerificationContext { network, validity_time: t1 }, &vreq, &pres, &vra, &mat);
+                run("last_valid_instant", true, &VerificationContext { network, validity_time: t2 }, &vreq, &pres, &vra, &mat);
+                run("expired", false, &VerificationContext { network, validity_time: t3 }, &vreq, &pres, &vra, &mat);
+                let mut vra2 = vra.clone(); vra2.block_hash = block_hash(&mut r);
+                run("anchor_block_hash", false, &vctx, &vreq, &pres, &vra2, &mat);
+                let mut vra3 = vra.clone(); let mut hb = [0u8; 32]; hb.copy_from_slice(anchor.hash.as_ref()); hb[3] ^= 8; vra3.verification_request_anchor.hash = hashes::Hash::new(hb);
+                run("anchor_hash", false, &vctx, &vreq, &pres, &vra3, &mat);
+                // a request that differs from the anchored one (nonce)
+                let mut vreq2 = vreq.clone(); vreq2.context.given[1] = LabeledContextProperty::ConnectionId("other".into());
+                run("request_context_differs_from_anchor", false, &vctx, &vreq2, &pres, &vra, &mat);
+                // a request (and matching anchor) for other context than the presentation
+                let data2 = VerificationRequestDataBuilder::new(vreq2.context.clone()).subject_claim(claims.clone()).build();
+                let vra4 = VerificationRequestAnchorAndBlockHash { verification_request_anchor: data2.to_anchor(None), block_hash: bh };
+                run("request_context_differs_from_presentation", false, &vctx, &vreq2, &pres, &vra4, &mat);
+                // issuer / credential type not allowed by the (consistently anchored) request
+                let mut cl = claims.clone(); cl.issuers = vec![IdentityProviderDid::new(ip.0 + 100, network)];
+                let d3 = VerificationRequestDataBuilder::new(unfilled.clone()).subject_claim(cl).build();
+                let vreq3 = VerificationRequest { context: unfilled.clone(), subject_claims: d3.subject_claims.clone(), anchor_transaction_hash: vreq.anchor_transaction_hash };
+                run("issuer_not_allowed", false, &vctx, &vreq3, &pres, &VerificationRequestAnchorAndBlockHash { verification_request_anchor: d3.to_anchor(None), block_hash: bh }, &mat);
+                let mut cl = claims.clone(); cl.source = vec![if matches!(c, Cred::Account { .. }) { IdentityCredentialType::IdentityCredential } else { IdentityCredentialType::AccountCredential }];
+                let d4 = VerificationRequestDataBuilder::new(unfilled.clone()).subject_claim(cl).build();
+                let vreq4 = VerificationRequest { context: unfilled.clone(), subject_claims: d4.subject_claims.clone(), anchor_transaction_hash: vreq.anchor_transaction_hash };
+                run("credential_type_not_allowed", false, &vctx, &vreq4, &pres, &VerificationRequestAnchorAndBlockHash { verification_request_anchor: d4.to_anchor(None), block_hash: bh }, &mat);
+                // the request asks for other statements than the presentation proves
+                if let Some(s) = c.ss().first() {
+                    let v = c.al().iter().find(|(t, _)| *t == s.tag()).map(|(_, a)| a.clone()).unwrap();
+                    let s2 = match s { S1::Value(t, _) => c.al().iter().find(|(t2, _)| t2 != t).map(|(t2, a)| S1::Value(*t2, a.clone())), other => alter_s1(&mut r, other, &v) };
+                    if let Some(s2) = s2 {
+                        if format!("{}", serde_json::to_string(&requested(&s2)).unwrap_or_default()) != format!("{}", serde_json::to_string(&requested(s)).unwrap_or_default()) {
+                            let mut cl = claims.clone(); cl.statements[0] = requested(&s2);
+                            let d5 = VerificationRequestDataBuilder::new(unfilled.clone()).subject_claim(cl).build();
+                            let vreq5 = VerificationRequest { context: unfilled.clone(), subject_claims: d5.subject_claims.clone(), anchor_transaction_hash: vreq.anchor_transaction_hash };
+                            run("requested_statement_differs", false, &vctx, &vreq5, &pres, &VerificationRequestAnchorAndBlockHash { verification_request_anchor: d5.to_anchor(None), block_hash: bh }, &mat);
+                        }
+                    }
+                    let mut cl = claims.clone(); cl.statements.pop();
+                    let d6 = VerificationRequestDataBuilder::new(unfilled.clone()).subject_claim(cl).build();
+                    let vreq6 = VerificationRequest { context: unfilled.clone(), subject_claims: d6.subject_claims.clone(), anchor_transaction_hash: vreq.anchor_transaction_hash };
+                    run("requested_statement_removed", false, &vctx, &vreq6, &pres, &VerificationRequestAnchorAndBlockHash { verification_request_anchor: d6.to_anchor(None), block_hash: bh }, &mat);
+                }
+                // presentation without the block hash in its context cannot even be produced for this request; drop it afterwards
+                let mut p2 = pres.clone(); p2.presentation_context.requested.clear();
+                run("presentation_without_block_hash", false, &vctx, &vreq, &p2, &vra, &mat);
+            }
+        }
+    }
+}
+
+impl Idp {
+    fn material_identity(&self) -> Mat {
+        CredentialVerificationMaterial::Identity(IdentityCredentialVerificationMaterial { ip_info: self.ip_info.clone(), ars_infos: self.ars.clone() })
+    }
+}
